@@ -419,7 +419,9 @@ def parent_main(prop, tier, seed, jobs, replay_file=None, shard_timeout=None):
         ev = {"property_id": prop, "tier": tier, "seed": int(seed), "level": "exploration", "coverage": cov,
               "assumptions": getattr(mod, "ASSUMPTIONS", []), "wall_s": round(wall, 2),
               "violations": len(new_viol)}
-        with open(os.path.join(VERIF, "evidence", f"{prop}.json"), "w") as f:
+        evdir = os.path.join(VERIF, "evidence") if os.path.realpath(REPO) == "/repo" else os.path.join(OUT, "evidence_scratch")
+        os.makedirs(evdir, exist_ok=True)
+        with open(os.path.join(evdir, f"{prop}.json"), "w") as f:
             json.dump(jsonable(ev), f, indent=1)
 
     # ---- verdict
